@@ -9,6 +9,7 @@ the enumerated space and for random large tables.
 """
 
 import itertools
+import re
 import os
 import math
 import warnings
@@ -48,7 +49,8 @@ def required_cells(tier):
             "undefined:distance-empty-union", "row:empty-set", "row:zero-count", "shared-only-platform",
             "arg:subset-size-1", "arg:subset-size-k-1", "meta:rename", "meta:reorder", "meta:scale",
             "class:enum", "class:random", "names:substring-related", "meta:rename-case-variants",
-            "class:clustering", "clustering:platforms>=4", "clustering:>=4-distinct-distances", "clustering:average-marker"]
+            "class:clustering", "clustering:platforms>=4", "clustering:>=4-distinct-distances", "clustering:average-marker",
+            "summary-report", "summary-report:nan", "name:empty-string"]
 
 
 # ---------------------------------------------------------------- oracle --
@@ -158,6 +160,7 @@ def random_tables(ctx):
         names = [f"p{j}" for j in range(k)]
         if rng.random() < 0.3:
             names = [rng.choice(["cpu", "gpu", "x", "Z", "a b", "é", "0"]) + str(j) for j in range(k)]
+            names[0] = rng.choice(["", "0", names[0]])          # falsy / blank names are names too
         elif rng.random() < 0.4:
             names = ["p" * (j + 1) for j in range(k)]       # p, pp, ppp: every name is a substring of the next
         elif rng.random() < 0.3:
@@ -203,6 +206,8 @@ def check_table(rows, report, watch, rng):
     total = sum(table.values())
     if frozenset() in table:
         cells.add("row:empty-set")
+    if "" in ps:
+        cells.add("name:empty-string")
     if any(v == 0 for v in table.values()):
         cells.add("row:zero-count")
     for p in ps:
@@ -274,6 +279,31 @@ def check_table(rows, report, watch, rng):
         cells.add("undefined:divergence-lt2")
     resd = watch(report.divergence, table)
     expect("divergence", None, resd, None if amb else dv, alt_ok=(dv,) if amb else ())
+
+    # the summary report prints the same three metrics (2 decimals, or nan when undefined) and one row per platform set
+    import io
+    buf = io.StringIO()
+    try:
+        report.summary(table, stream=buf)
+        printed = {}
+        for ln in buf.getvalue().splitlines():
+            mm = re.match(r"^(Code Divergence|Coverage \(%\)|Avg\. Coverage \(%\)|Total SLOC): (.*)$", ln)
+            if mm:
+                printed[mm.group(1)] = mm.group(2).strip()
+        cells.add("summary-report")
+        for name, exact in (("Code Divergence", None if amb else dv), ("Coverage (%)", exp), ("Avg. Coverage (%)", ref_avg_coverage(table))):
+            got = printed.get(name)
+            if name == "Code Divergence" and amb:
+                continue
+            ok = got == "nan" if exact is None else (got not in (None, "nan") and abs(float(got) - float(exact)) <= 0.005 + 1e-9)
+            if exact is None:
+                cells.add("summary-report:nan")
+            if not ok:
+                problems.append({"metric": "summary:" + name, "args": None, "expected": "nan" if exact is None else str(exact), "observed": got})
+        if printed.get("Total SLOC") != str(total):
+            problems.append({"metric": "summary:Total SLOC", "args": None, "expected": str(total), "observed": printed.get("Total SLOC")})
+    except Exception as e:
+        problems.append({"metric": "summary", "args": None, "expected": "a report", "observed": f"{type(e).__name__}: {e}"})
 
     # metamorphic: rename, reorder, scale
     base = {"coverage": watch(report.coverage, table), "average_coverage": watch(report.average_coverage, table),
